@@ -29,7 +29,7 @@ var c07Vocabulary = map[string][2]string{
 	"Update": {"Activity", "activity"}, "View": {"Activity", "activity"},
 	"IntransitiveActivity": {"IntransitiveActivity", "generic"}, "Arrive": {"IntransitiveActivity", "intransitive"}, "Travel": {"IntransitiveActivity", "intransitive"},
 	"Question": {"Question", "intransitive"},
-	"Actor": {"Actor", "generic"}, "Application": {"Actor", "actor"}, "Group": {"Actor", "actor"}, "Organization": {"Actor", "actor"}, "Person": {"Actor", "actor"}, "Service": {"Actor", "actor"},
+	"Actor":    {"Actor", "generic"}, "Application": {"Actor", "actor"}, "Group": {"Actor", "actor"}, "Organization": {"Actor", "actor"}, "Person": {"Actor", "actor"}, "Service": {"Actor", "actor"},
 	"Collection": {"Collection", "collection"}, "OrderedCollection": {"OrderedCollection", "collection"}, "CollectionPage": {"CollectionPage", "collection"},
 	"OrderedCollectionPage": {"OrderedCollectionPage", "collection"},
 }
@@ -194,9 +194,11 @@ func init() {
 			"property / nested in a list, gob top level / nested in item / nested in list; configurations = hooks unset / hooks set; complete cross product, plus family-list membership, IsObject/IsLink/IsCollection and the " +
 			"On*/To* acceptance matrix per name; marker value = id, name and every family-specific property of the struct; non-trivial = a vocabulary name",
 		Assumptions: []string{"the vocabulary table in c07.go is the independent ground truth (written from the ActivityStreams vocabulary)", "reading D3 for generic and unknown names"},
-		Bound:       func(string) string { return "complete: ~61 names x 7 channels x 2 hook configurations + membership and helper matrices (same in both tiers)" },
-		Shards:      8,
-		Run:         c07Run,
+		Bound: func(string) string {
+			return "complete: ~61 names x 7 channels x 2 hook configurations + membership and helper matrices (same in both tiers)"
+		},
+		Shards: 8,
+		Run:    c07Run,
 	})
 }
 
@@ -365,11 +367,19 @@ func c07Run(c *engine.Ctx) {
 			}
 			{
 				p, e := ap.ToCollection(v)
-				probe("Collection", e == nil && p != nil, func() bool { c := false; ap.OnCollection(v, func(*ap.Collection) error { c = true; return nil }); return c })
+				probe("Collection", e == nil && p != nil, func() bool {
+					c := false
+					ap.OnCollection(v, func(*ap.Collection) error { c = true; return nil })
+					return c
+				})
 			}
 			{
 				p, e := ap.ToCollectionPage(v)
-				probe("CollectionPage", e == nil && p != nil, func() bool { c := false; ap.OnCollectionPage(v, func(*ap.CollectionPage) error { c = true; return nil }); return c })
+				probe("CollectionPage", e == nil && p != nil, func() bool {
+					c := false
+					ap.OnCollectionPage(v, func(*ap.CollectionPage) error { c = true; return nil })
+					return c
+				})
 			}
 			{
 				p, e := ap.ToOrderedCollection(v)
@@ -397,11 +407,19 @@ func c07Run(c *engine.Ctx) {
 			}
 			{
 				p, e := ap.ToRelationship(v)
-				probe("Relationship", e == nil && p != nil, func() bool { c := false; ap.OnRelationship(v, func(*ap.Relationship) error { c = true; return nil }); return c })
+				probe("Relationship", e == nil && p != nil, func() bool {
+					c := false
+					ap.OnRelationship(v, func(*ap.Relationship) error { c = true; return nil })
+					return c
+				})
 			}
 			{
 				p, e := ap.ToTombstone(v)
-				probe("Tombstone", e == nil && p != nil, func() bool { c := false; ap.OnTombstone(v, func(*ap.Tombstone) error { c = true; return nil }); return c })
+				probe("Tombstone", e == nil && p != nil, func() bool {
+					c := false
+					ap.OnTombstone(v, func(*ap.Tombstone) error { c = true; return nil })
+					return c
+				})
 			}
 			t.Ops(2 * len(hs))
 			for _, h := range hs {
